@@ -790,6 +790,7 @@ func (x *Exec) forStmt(s *ast.ForStmt, st *State, label string) outcome {
 			o := x.stmt(s.Post, end, "")
 			end = o.normal
 		}
+		x.anchoredAsserts(fmt.Sprintf("loop%d:end", ord), ord, end, bodyPos)
 		env := x.invEnv(end, bodyPos, nil)
 		for i, inv := range invs {
 			x.oblige(end, "loop", fmt.Sprintf("%d:pres:%s", ord, invLabel(inv, i)), env.evalBool(inv.E), s.Pos(), inv.Src)
@@ -1000,6 +1001,7 @@ func (x *Exec) rangeStmt(s *ast.RangeStmt, st *State, label string) outcome {
 	}
 	out.absorb(bo)
 	if end := x.mergeAll(ends); end != nil {
+		x.anchoredAsserts(fmt.Sprintf("loop%d:end", ord), ord, end, bodyPos)
 		end.vars[idxObj] = Add(k, IntLit(1))
 		bindKV(end, false)
 		env := x.invEnv(end, bodyPos, extra(end))
@@ -1020,11 +1022,17 @@ func (x *Exec) rangeStmt(s *ast.RangeStmt, st *State, label string) outcome {
 // (`assert @loopN:exit [label] e`). A label starting with "assumed" makes
 // it an assumption instead, which is recorded as such.
 func (x *Exec) exitAsserts(ord int, st *State, pos token.Pos) {
+	x.anchoredAsserts(fmt.Sprintf("loop%d:exit", ord), ord, st, pos)
+}
+
+// anchoredAsserts: `assert @<anchor> [label] e [by lemma(args), …]` clauses
+// for the anchors loopN:exit (where the loop is left) and loopN:end (end of
+// an arbitrary iteration's body, before the invariant is re-established).
+func (x *Exec) anchoredAsserts(anchor string, ord int, st *State, pos token.Pos) {
 	fr := x.cur()
 	if st == nil || fr.fc == nil {
 		return
 	}
-	anchor := fmt.Sprintf("loop%d:exit", ord)
 	for i, a := range fr.fc.Asserts {
 		if a.Anchor != anchor {
 			continue
@@ -1041,15 +1049,23 @@ func (x *Exec) exitAsserts(ord int, st *State, pos token.Pos) {
 			continue
 		}
 		ost := st
+		goal := t
 		if len(a.By) > 0 {
 			// ground instances of the named lemmas (each lemma is proved by
-			// its own obligations): hypotheses of this assertion only
+			// its own obligations): hypotheses of this assertion only. For
+			// an assertion `forall v.. :: body` the lemma arguments may
+			// mention v..: the quantifier is opened with fresh constants
+			// and the lemma applied to those.
 			ost = st.clone()
+			benv, g2 := x.openForall(env, a.Cl.E)
+			if g2 != nil {
+				goal = g2
+			}
 			for _, call := range a.By {
-				ost.assume(x.lemmaInstance(env, call))
+				ost.assume(x.lemmaInstance(benv, call))
 			}
 		}
-		x.oblige(ost, "assert", fmt.Sprintf("%s@%s", label, anchor), t, pos, a.Cl.Src)
+		x.oblige(ost, "assert", fmt.Sprintf("%s@%s", label, anchor), goal, pos, a.Cl.Src)
 		st.assume(t)
 	}
 }
@@ -1080,4 +1096,24 @@ func (x *Exec) assumeInvs(st *State, lc *LoopContract, env *CEnv, invs []Clause)
 	for _, t := range st.pc[n:] {
 		x.invFacts[t] = true
 	}
+}
+
+// openForall: for e = `forall v in lo..hi, w T :: body` returns an
+// environment in which v, w are fresh constants and the ground goal
+// (ranges => body); for any other expression (env, nil).
+func (x *Exec) openForall(env *CEnv, e *CExpr) (*CEnv, *Term) {
+	if e.Kind != "quant" || e.Op != "forall" {
+		return env, nil
+	}
+	cur := env
+	var ranges []*Term
+	for _, v := range e.Vars {
+		ty := env.cty(v.Type)
+		c := x.sym.Fresh("sk_"+v.Name, x.w.sortOf(ty, x.model))
+		if v.Lo != nil {
+			ranges = append(ranges, Le(cur.eval(v.Lo).T, c), Lt(c, cur.eval(v.Hi).T))
+		}
+		cur = cur.withBound(v.Name, Val{T: c, Ty: ty})
+	}
+	return cur, Implies(And(ranges...), cur.evalBool(e.Args[0]))
 }
